@@ -107,9 +107,14 @@ Section Generic.
   Definition lfo_new (w : waveform) (f a o : value) (starting_phase : T) : lfo :=
     {| l_wave := w; l_freq := param_new f n2; l_amp := param_new a n1; l_off := param_new o n0;
        l_phase := ndiv starting_phase tau; l_value := n0 |}.
-  (** the arithmetic of [Lfo::update] once the three parameters have their values *)
+  (** [f64::rem_euclid(1.0)]: [let r = self % 1.0; if r < 0.0 { r + 1.0 } else { r }] *)
+  Definition nrem_euclid1 (x : T) : T :=
+    let r := nrem1 x in
+    if nltb r n0 then nadd r n1 else r.
+  (** the arithmetic of [Lfo::update] once the three parameters have their values:
+      [phase += dt * frequency; phase = phase.rem_euclid(1.0); value = offset + amplitude * wave] *)
   Definition lfo_step (w : waveform) (dt f a o phase : T) : T * T :=
-    let ph := nrem1 (nadd phase (nmul dt f)) in
+    let ph := nrem_euclid1 (nadd phase (nmul dt f)) in
     (ph, nadd o (nmul a (wave_value w ph))).
   Definition lfo_update (dt : T) (lookup : Z -> option T) (l : lfo) : lfo :=
     let f := param_update dt lookup (l_freq l) in
@@ -245,6 +250,8 @@ Section Generic.
   Record rstate := {
     r_dt : T;                               (* 1.0 / sample_rate as f64 *)
     r_mods : list (Z * modulator);          (* [keys] order = order of [add_modulator] calls *)
+    r_new : list (Z * modulator);           (* queued by [add_modulator], not yet in the arena *)
+    r_removed : list Z;                     (* handles dropped: [finished()] is true *)
     r_clocks : list (Z * clock);
     r_probes : list (Z * probe);
     r_log : list event;                     (* oldest first *)
@@ -260,7 +267,8 @@ Section Generic.
     let ev_clocks := map (fun kc => EvClock (fst kc) dtc) (r_clocks st) in
     let probes' := map (fun kp => (fst kp, probe_update dtc look (snd kp))) (r_probes st) in
     let ev_probes := map (probe_event len look clocks') probes' in
-    {| r_dt := r_dt st; r_mods := mods'; r_clocks := clocks'; r_probes := probes';
+    {| r_dt := r_dt st; r_mods := mods'; r_new := r_new st; r_removed := r_removed st;
+       r_clocks := clocks'; r_probes := probes';
        r_log := r_log st ++ ev_mods ++ ev_clocks ++ ev_probes |}.
 
   (** [Renderer::process]: [out.chunks_mut(internal_buffer_size * channels)] *)
@@ -268,6 +276,18 @@ Section Generic.
     repeat ibs (Z.to_nat (frames / ibs)) ++ (if frames mod ibs =? 0 then [] else [frames mod ibs]).
   Definition process (ibs : Z) (st : rstate) (frames : Z) : rstate :=
     fold_left process_chunk (chunk_lens ibs frames) st.
+
+  (** [Modulators::on_start_processing]: [remove_and_add(|m| m.finished())] -- the finished ones
+      leave [keys] (order of the others kept), THEN the queued ones are appended; so a modulator
+      added and dropped between the same two callbacks still lives for one callback. *)
+  Definition zmem (x : Z) (l : list Z) : bool := existsb (Z.eqb x) l.
+  Definition start_processing (st : rstate) : rstate :=
+    {| r_dt := r_dt st;
+       r_mods := filter (fun km => negb (zmem (fst km) (r_removed st))) (r_mods st) ++ r_new st;
+       r_new := []; r_removed := r_removed st;
+       r_clocks := r_clocks st; r_probes := r_probes st; r_log := r_log st |}.
+  Definition callback (ibs : Z) (st : rstate) (frames : Z) : rstate :=
+    process ibs (start_processing st) frames.
 
   (** ** what the user thread does between two callbacks; everything takes effect in the next
       [on_start_processing] (removals first, then additions in order, then the commands) *)
@@ -282,30 +302,38 @@ Section Generic.
   | OAddProbe (pid : Z) (pr : probe)
   | OCallback (frames : Z).
 
-  Definition with_mods (st : rstate) (mods : list (Z * modulator)) : rstate :=
-    {| r_dt := r_dt st; r_mods := mods; r_clocks := r_clocks st; r_probes := r_probes st; r_log := r_log st |}.
   Definition on_mod (id : Z) (f : modulator -> modulator) (mods : list (Z * modulator)) : list (Z * modulator) :=
     map (fun km => if fst km =? id then (fst km, f (snd km)) else km) mods.
+  Definition with_mods (st : rstate) (mods new : list (Z * modulator)) : rstate :=
+    {| r_dt := r_dt st; r_mods := mods; r_new := new; r_removed := r_removed st;
+       r_clocks := r_clocks st; r_probes := r_probes st; r_log := r_log st |}.
+  Definition cmd (st : rstate) (id : Z) (f : modulator -> modulator) : rstate :=
+    with_mods st (on_mod id f (r_mods st)) (on_mod id f (r_new st)).
   Definition apply_op (ibs : Z) (st : rstate) (o : op) : rstate :=
     match o with
-    | OAddMod id m => with_mods st (r_mods st ++ [(id, m)])
-    | ODropMod id => with_mods st (filter (fun km => negb (fst km =? id)) (r_mods st))
+    | OAddMod id m => with_mods st (r_mods st) (r_new st ++ [(id, m)])
+    | ODropMod id =>
+        {| r_dt := r_dt st; r_mods := r_mods st; r_new := r_new st; r_removed := id :: r_removed st;
+           r_clocks := r_clocks st; r_probes := r_probes st; r_log := r_log st |}
     | OSetTweener id target tw =>
-        with_mods st (on_mod id (fun m => match m with MTweener t => MTweener (tweener_set t target tw) | _ => m end) (r_mods st))
+        cmd st id (fun m => match m with MTweener t => MTweener (tweener_set t target tw) | _ => m end)
     | OSetLfoParam id which target tw =>
-        with_mods st (on_mod id (fun m => match m with MLfo l => MLfo (lfo_set_param l which target tw) | _ => m end) (r_mods st))
+        cmd st id (fun m => match m with MLfo l => MLfo (lfo_set_param l which target tw) | _ => m end)
     | OSetPhase id phase =>
-        with_mods st (on_mod id (fun m => match m with MLfo l => MLfo (lfo_set_phase l phase) | _ => m end) (r_mods st))
+        cmd st id (fun m => match m with MLfo l => MLfo (lfo_set_phase l phase) | _ => m end)
     | OSetWave id w =>
-        with_mods st (on_mod id (fun m => match m with MLfo l => MLfo (lfo_set_wave l w) | _ => m end) (r_mods st))
+        cmd st id (fun m => match m with MLfo l => MLfo (lfo_set_wave l w) | _ => m end)
     | OAddClock cid c =>
-        {| r_dt := r_dt st; r_mods := r_mods st; r_clocks := r_clocks st ++ [(cid, c)]; r_probes := r_probes st; r_log := r_log st |}
+        {| r_dt := r_dt st; r_mods := r_mods st; r_new := r_new st; r_removed := r_removed st;
+           r_clocks := r_clocks st ++ [(cid, c)]; r_probes := r_probes st; r_log := r_log st |}
     | OAddProbe pid pr =>
-        {| r_dt := r_dt st; r_mods := r_mods st; r_clocks := r_clocks st; r_probes := r_probes st ++ [(pid, pr)]; r_log := r_log st |}
-    | OCallback frames => process ibs st frames
+        {| r_dt := r_dt st; r_mods := r_mods st; r_new := r_new st; r_removed := r_removed st;
+           r_clocks := r_clocks st; r_probes := r_probes st ++ [(pid, pr)]; r_log := r_log st |}
+    | OCallback frames => callback ibs st frames
     end.
   Definition init_state (sample_rate : Z) : rstate :=
-    {| r_dt := ndiv n1 (nofZ sample_rate); r_mods := []; r_clocks := []; r_probes := []; r_log := [] |}.
+    {| r_dt := ndiv n1 (nofZ sample_rate); r_mods := []; r_new := []; r_removed := [];
+       r_clocks := []; r_probes := []; r_log := [] |}.
   Definition run_ops (sample_rate ibs : Z) (ops : list op) : rstate :=
     fold_left (apply_op ibs) ops (init_state sample_rate).
 End Generic.
